@@ -89,6 +89,13 @@ func c15Session(backend string) (*sm.Session, error) {
 		delete(c15Secondaries, s)
 	})
 	s.Hooks = []sm.Hook{func(s *sm.Session, op *cs.Op, out *cs.Outcome) *sm.Fail {
+		audit := op.Kind == "dropindex" || op.Kind == "dropcoll"
+		if audit && !s.M.Closed {
+			// what a drop leaves behind differs between the engines' cursors: audit the raw keys
+			if msg := run.Audit(s.H.Raw, s.M); msg != "" {
+				return &sm.Fail{Property: "C15", Clause: "drop-residue", Detail: "[bbolt] " + msg + "  [after " + op.String() + "]"}
+			}
+		}
 		for _, sec := range c15Secondaries[s] {
 			if f := sec.Do(*op); f != nil {
 				f.Detail = "[" + sec.Backend + "] " + f.Detail
@@ -96,6 +103,11 @@ func c15Session(backend string) (*sm.Session, error) {
 					f.Property = "C15"
 				}
 				return f
+			}
+			if audit && !sec.M.Closed {
+				if msg := run.Audit(sec.H.Raw, sec.M); msg != "" {
+					return &sm.Fail{Property: "C15", Clause: "drop-residue", Detail: "[" + sec.Backend + "] " + msg + "  [after " + op.String() + "]"}
+				}
 			}
 			if msg := outcomeDiff(out, sec.Last); msg != "" {
 				return &sm.Fail{Property: "C15", Clause: "backend-differential", Detail: fmt.Sprintf("bbolt vs %s: %s  [op %s]", sec.Backend, msg, clipStr(op.String(), 600))}
@@ -109,7 +121,7 @@ func c15Session(backend string) (*sm.Session, error) {
 func c15Profile() *sm.Profile {
 	return &sm.Profile{
 		Name:        "c15",
-		Colls:       []string{"A", "B", "ab"},
+		Colls:       []string{"A", "B", "ab", strings.Repeat("N", 520), strings.Repeat("N", 1030)},
 		IndexFields: []string{"x", "y", "u", "n.a", "_id"},
 		Doc:         gen.DocCfg{Val: gen.ValCfg{MaxDepth: 1, NonUTF8: true}, PAbsent: 4},
 		IdPool:      24,
